@@ -552,6 +552,7 @@ type c11Stats struct {
 }
 
 func c11Run(c c11Case) (fail *vlib.Failure, errLog string) {
+	defer vlib.Guard("C11", c, nil)()
 	tree := NewObjectTree()
 	tree.CreateDefaultScopes(42)
 	var keep [][]byte
